@@ -39,11 +39,11 @@ type dtKnow struct {
 }
 
 type dtPath struct {
-	Locals  map[string]string // final values stored into local cells / fields of local literals
-	Assume  map[string]string // literal key -> "true"/"false"/"=const"/"!=c1,c2"
-	know    map[string]*dtKnow
-	Effects []dtEffect
-	Returns []string
+	Locals    map[string]string // final values stored into local cells / fields of local literals
+	Assume    map[string]string // literal key -> "true"/"false"/"=const"/"!=c1,c2"
+	know      map[string]*dtKnow
+	Effects   []dtEffect
+	Returns   []string
 	Undecided string
 }
 
@@ -53,9 +53,9 @@ type dtConfig struct {
 	// ConstSetMember: callee implementing "byte is member of constant set" (util.ByteIsAny)
 	ConstSetMember *ssa.Function
 	// Preset knowledge: key -> constant (to enumerate a domain from outside)
-	Preset map[string]constant.Value
+	Preset    map[string]constant.Value
 	PresetNil map[string]bool
-	MaxPaths int
+	MaxPaths  int
 }
 
 type dtWalker struct {
@@ -607,7 +607,7 @@ func (w *dtWalker) execCall(st *dtState, call *ssa.Call) {
 	key := name + "(" + strings.Join(args, ",") + ")"
 	// a local bytes.Buffer (or strings.Builder) used to assemble a byte string: model its content as the append chain
 	// of what was written to it, so that `buf.Write(a); buf.WriteString(b); buf.Bytes()` reads append(a,b)
-	if o := CalleeObj(call); o != nil && o.Pkg() != nil && len(args) > 0 {
+	if o := CalleeObj(call); o != nil && o.Pkg() != nil && len(args) > 0 && len(call.Call.Args) > 0 {
 		isBuf := func(v ssa.Value) bool {
 			v = stripConv(v)
 			t := v.Type()
